@@ -19,7 +19,7 @@ func init() {
 		ID:    "C20",
 		Level: "exploration",
 		Rule: "order axioms: every ordered pair of the string universe U (all strings of length<=L over {0,1,9,a,b,-}, L=4 quick / 5 thorough, plus PRNG strings with long digit runs and leading zeros) is tested for irreflexivity, asymmetry, totality and, when the two strings differ in exactly one digit run, agreement with math/big; transitivity on all triples of a PRNG subset; natsort.Strings on PRNG slices must return a sorted permutation. " +
-			"permutation invariance: every corpus module with >=2 named top-level entities is re-parsed under permutations of its top-level definitions (all permutations when <=5 entities, capped PRNG sample otherwise) and must print as the original with only the textual-order lists (globals, aliases, ifuncs, functions) rearranged. " +
+			"permutation invariance: every corpus module with >=2 top-level entities is re-parsed under permutations of its top-level definitions (all permutations when <=5 entities, capped PRNG sample otherwise; unnamed globals @N keep their relative order, since LLVM numbers them by appearance, while everything else moves around them) and must print as the original with only the textual-order lists (globals, aliases, ifuncs, functions) rearranged. " +
 			"non-trivial = a pair of distinct strings / a triple of distinct strings / a non-identity permutation; distinct by construction (enumerated blocks) or by digest",
 		Gen:           genC20,
 		MinNontrivial: 10000,
